@@ -4,6 +4,7 @@
 
 use crate::driver::{CaseOut, Check, Failure, Plan, Tier};
 use crate::hist::*;
+use crate::tableops::Stop;
 use crate::tape::{Fnv, Tape};
 use serde_json::{Value, json};
 
@@ -15,12 +16,29 @@ pub struct HistCheck {
     pub quick: (u64, usize),
     pub thorough: (u64, usize),
     pub classify: fn(&Machine, &mut CaseOut),
+    /// property-specific closing steps, run on the machine after the tape (None = nothing)
+    pub finale: Option<fn(&mut Machine) -> Result<(), Stop>>,
     /// minimal tapes of listed known findings, run once per run in strict mode
     pub probes: &'static [fn() -> Tape],
 }
 
 fn run_machine(tape: &Tape, profile: Profile, trace: bool) -> (Option<Machine>, Result<(), Failure>) {
     run_machine_mode(tape, profile, trace, false)
+}
+
+fn run_machine_fin(tape: &Tape, profile: Profile, trace: bool, strict: bool, finale: Option<fn(&mut Machine) -> Result<(), Stop>>) -> (Option<Machine>, Result<(), Failure>) {
+    let (m, r) = run_machine_mode(tape, profile, trace, strict);
+    let (Some(mut m), Ok(())) = (m, r.clone()) else {
+        return (None, r);
+    };
+    let r = match finale {
+        Some(f) => match crate::driver::catch(|| f(&mut m)) {
+            Ok(r) => r.map_err(stop_failure),
+            Err(p) => Err(Failure::new(format!("panic:{}", crate::driver::normalize_sig(&p)), format!("panic in the closing steps: {p}"))),
+        },
+        None => Ok(()),
+    };
+    (Some(m), r)
 }
 
 fn run_machine_mode(tape: &Tape, profile: Profile, trace: bool, strict: bool) -> (Option<Machine>, Result<(), Failure>) {
@@ -46,12 +64,18 @@ impl Check for HistCheck {
         v.push("the reference model's error predictions follow DESIGN.md Appendix A (read from transactions.rs / table_tree.rs)".into());
         v
     }
+    fn fuzz_runs(&self) -> u64 {
+        match self.id {
+            "C13" => 0, // the known finding is excluded by construction only in the in-process driver
+            _ => 200_000,
+        }
+    }
     fn plan(&self, tier: Tier) -> Plan {
         let (cases, max_recs) = tier.pick(self.quick, self.thorough);
         Plan { cases, max_recs, max_shrink_iters: 3000, workers: 16 }
     }
     fn run(&self, tape: &Tape, want_sample: bool) -> Result<CaseOut, Failure> {
-        let (m, r) = run_machine(tape, (self.profile)(tape), want_sample);
+        let (m, r) = run_machine_fin(tape, (self.profile)(tape), want_sample, false, self.finale);
         r?;
         let m = m.unwrap();
         let mut out = CaseOut { evals: 1, ..Default::default() };
@@ -85,10 +109,28 @@ impl Check for HistCheck {
             }
         }
         acc.extra.insert("known_finding_probes_run".into(), json!(n));
+        if self.id == "C13" {
+            let (n, in_time, fails) = crate::c13conc::run_grid();
+            acc.extra.insert(
+                "compact_waiting_behind_a_writer".into(),
+                json!({"what": "two-thread histories: compact() blocks in begin_write() behind a live write transaction whose owner then creates an ephemeral/persistent savepoint and commits/aborts; compact() must refuse (src/c13conc.rs)",
+                    "scenarios_run": n, "compact_returned_within_3s": in_time}),
+            );
+            out.extend(fails.into_iter().map(|f| (f, None)));
+        }
+        if self.id == "C17" {
+            let (st, fails) = crate::c17types::run_grid(16);
+            acc.extra.insert(
+                "type_pair_grid".into(),
+                json!({"what": "every (stored definition, requested definition) pair of the menu in src/c17types.rs, opened in a write and a read transaction, before and after a reopen; expected outcome from hand-written type descriptors",
+                    "exhaustive_over_menu": true, "stored_definitions": st.stored_definitions, "pairs": st.pairs, "opens": st.opens, "outcomes": st.by_outcome}),
+            );
+            out.extend(fails.into_iter().map(|f| (f, None)));
+        }
         out
     }
     fn render(&self, tape: &Tape) -> Value {
-        let (m, r) = run_machine(tape, (self.profile)(tape), true);
+        let (m, r) = run_machine_fin(tape, (self.profile)(tape), true, false, self.finale);
         json!({
             "config": decode_cfg(tape).json(),
             "ops_until_failure": m.as_ref().and_then(|m| m.trace.clone()),
@@ -196,6 +238,7 @@ pub fn c02() -> HistCheck {
         quick: (16_000, 140),
         thorough: (300_000, 200),
         classify: c_c02,
+        finale: None,
         probes: &[],
     }
 }
@@ -248,6 +291,7 @@ pub fn c05() -> HistCheck {
         quick: (30_000, 120),
         thorough: (600_000, 160),
         classify: c_c05,
+        finale: None,
         probes: &[],
     }
 }
@@ -291,6 +335,7 @@ pub fn c07() -> HistCheck {
         quick: (30_000, 140),
         thorough: (600_000, 200),
         classify: c_c07,
+        finale: None,
         probes: &[],
     }
 }
@@ -341,6 +386,7 @@ pub fn c13() -> HistCheck {
         quick: (12_000, 200),
         thorough: (200_000, 260),
         classify: c_c13,
+        finale: None,
         probes: &[probe_c13_empty_compact],
     }
 }
@@ -378,15 +424,83 @@ fn c_c17(m: &Machine, out: &mut CaseOut) {
     out.class_n("deletes", u64::from(m.stats.deletes_ok));
 }
 
+/// "deleting a table releases all of its storage": after the history, every table is deleted
+/// through the API (half of them first, then the rest), nothing holds old pages, the pending-free
+/// lists are drained by empty durable commits, and the independent accounting must be exact:
+/// allocated pages == pages reachable from the roots (which no longer contain the deleted tables).
+fn finale_c17(m: &mut Machine) -> Result<(), Stop> {
+    use crate::account::account;
+    use crate::{sensure, sfail};
+    m.finish()?;
+    m.drop_all_handles();
+    fn drain(m: &mut Machine, what: &str) -> Result<crate::account::Accounting, Stop> {
+        for i in 0..9u32 {
+            let a = match account(m.db.as_ref().unwrap()) {
+                Ok(a) => a,
+                Err(e) => sfail!("page-accounting", "{what} (empty commit {i}): {e}"),
+            };
+            if a.pending_free == 0 {
+                return Ok(a);
+            }
+            m.begin_write(Dur::Immediate, false, false)?;
+            m.commit()?;
+        }
+        sfail!("pending-free-not-drained", "{what}: pages still pending free after 8 empty durable commits with nothing alive");
+    }
+    let before = drain(m, "before deleting the tables")?;
+    let names: Vec<(String, bool)> = m.last().tables.iter().map(|(n, t)| (n.clone(), t.def().multi)).collect();
+    let mut last = before.allocated;
+    for round in 0..2 {
+        let batch: Vec<&(String, bool)> = names.iter().enumerate().filter(|(i, _)| i % 2 == round).map(|(_, x)| x).collect();
+        if batch.is_empty() {
+            continue;
+        }
+        m.begin_write(Dur::Immediate, false, false)?;
+        {
+            let w = m.w.as_mut().unwrap();
+            let txn = w.txn.as_ref().unwrap();
+            for (name, multi) in &batch {
+                let r = if *multi {
+                    let d: redb::MultimapTableDefinition<u64, u64> = redb::MultimapTableDefinition::new(name);
+                    txn.delete_multimap_table(d)
+                } else {
+                    let d: redb::TableDefinition<u64, u64> = redb::TableDefinition::new(name);
+                    txn.delete_table(d)
+                };
+                match r {
+                    Ok(true) => {
+                        std::sync::Arc::make_mut(&mut w.work.tables).remove(name.as_str());
+                    }
+                    Ok(false) => sfail!("delete-result", "closing steps: delete of existing table {name:?} returned false"),
+                    Err(redb::TableError::Storage(e)) => return Err(Stop::Io(format!("{e:?}"))),
+                    Err(e) => sfail!("delete-unexpected-error", "closing steps: delete of table {name:?} failed: {e:?}"),
+                }
+            }
+            w.dirty = true;
+        }
+        m.commit()?;
+        let a = drain(m, "after deleting tables")?;
+        // exactness (allocated == reachable, each page once) is established by account(); the
+        // deleted tables are no longer reachable, so their pages must have left the allocator
+        sensure!(a.allocated == a.reachable, "delete-leaks-storage", "after deleting {:?} and draining: {} pages allocated, {} reachable", batch, a.allocated, a.reachable);
+        sensure!(a.allocated <= last, "delete-leaks-storage", "after deleting {:?} and draining, allocated pages grew from {} to {}", batch, last, a.allocated);
+        last = a.allocated;
+    }
+    m.verify_committed()?;
+    m.classes.push("closing steps: all tables deleted, storage accounted exactly");
+    Ok(())
+}
+
 pub fn c17() -> HistCheck {
     HistCheck {
         id: "C17",
         profile: p_c17,
-        rule: "hist catalog profile: 6 names (prefixes of each other, one non-ASCII) x 8 definitions (table/multimap x key u64/&str x value &[u8]/u64), operations open (stored or deliberately different definition), a few data ops, hold/drop handle in any order, open twice, rename (to self, to existing, of open table, of missing, wrong kind), delete (wrong kind, open, missing), list in write and read transactions, commit/abort, reopen; compared with a model map name -> (kind, types, contents) with transaction-local staging; exact TableError variant for TableAlreadyOpen, TableDoesNotExist, TableExists, TableIsMultimap, TableIsNotMultimap, TableTypeMismatch. Non-trivial: a history with >=1 refused operation whose variant was checked and >=1 successful rename or delete; distinct by history hash.",
+        rule: "hist catalog profile: 6 names (prefixes of each other, one non-ASCII) x 8 definitions (table/multimap x key u64/&str x value &[u8]/u64), operations open (stored or deliberately different definition), a few data ops, hold/drop handle in any order, open twice, rename (to self, to existing, of open table, of missing, wrong kind), delete (wrong kind, open, missing), list in write and read transactions, commit/abort, reopen; compared with a model map name -> (kind, types, contents) with transaction-local staging; exact TableError variant for TableAlreadyOpen, TableDoesNotExist, TableExists, TableIsMultimap, TableIsNotMultimap, TableTypeMismatch. Closing steps of every history ('deleting a table releases all of its storage'): drop every handle, drain the pending-free lists with empty durable commits, delete the tables in two batches through the API, drain again; the independent page accounting (snapshot hook + decoder: allocated == reachable from the roots, each page once) must be exact and the allocated page count must not grow. Non-trivial: a history with >=1 refused operation whose variant was checked and >=1 successful rename or delete; distinct by history hash.",
         assumptions: &["rename onto an existing table of the other kind: only 'an error and no change' is required (the code reports the kind error)"],
         quick: (50_000, 120),
         thorough: (1_000_000, 160),
         classify: c_c17,
+        finale: Some(finale_c17),
         probes: &[],
     }
 }
